@@ -34,7 +34,7 @@ def main():
             lines = [l for l in p.stdout.splitlines() if l.startswith(('VIOLATION', 'UNDECIDED', '  failed', '  refuted'))]
             return c, p.returncode, lines[:3]
         out = {}
-        with ThreadPoolExecutor(4) as ex:
+        with ThreadPoolExecutor(int(os.environ.get('REFACTOR_JOBS', '4'))) as ex:
             for c, rc, lines in ex.map(one, ids):
                 out[c] = rc
                 if rc != 0:
